@@ -12,6 +12,7 @@ import Mfi.Props.C10
 import Mfi.Props.C08
 import Mfi.Model.Interest
 import Mfi.Lemmas.WorldL
+import Mfi.Lemmas.WorldSolvH
 namespace Mfi.Props.C12
 open Mfi Mfi.Admin Mfi.Gen
 
@@ -335,5 +336,38 @@ theorem world_window_frame (c : Ctx) :
   exact hw.symm
 
 end whole_instructions
+
+
+section world_machine
+open Mfi Mfi.World
+
+/-- **world_machine_changes_no_configuration**: no instruction of the world state machine — none of the user instructions, the
+    liquidations, the bankruptcy settlement, the transfer, the permissionless cranks, by any signer with any arguments — changes a
+    bank's key, group, vault, interest-rate configuration, origination fee, transfer-fee parameters, risk weights and limits
+    (`risk`) or oracle; the operational state stays as it is or becomes KilledByBankruptcy (by a settlement that wipes the bank
+    out). Configuration is the admin instructions' alone (the frames above say which field belongs to which role). -/
+theorem world_machine_changes_no_configuration (w : World.WState) (op : World.WOp) (j : Nat) (x : WBank) (hx : w.banks[j]? = some x) :
+    ∃ x', (w.step op).banks[j]? = some x' ∧ SameCfg x x' := step_bank_frame w op j x hx
+
+/-- … over every history -/
+theorem world_history_changes_no_configuration (ops : List World.WOp) : ∀ (w : World.WState) (j : Nat) (x : WBank), w.banks[j]? = some x →
+    ∃ x', (w.run ops).banks[j]? = some x' ∧ x'.v.key = x.v.key ∧ x'.v.group = x.v.group ∧ x'.v.ir = x.v.ir ∧ x'.risk = x.risk ∧
+      x'.feed = x.feed ∧ (x'.v.opState = x.v.opState ∨ x'.v.opState = 3) := by
+  induction ops with
+  | nil => intro w j x hx; exact ⟨x, hx, rfl, rfl, rfl, rfl, rfl, Or.inl rfl⟩
+  | cons op rest ih =>
+    intro w j x hx
+    simp only [World.WState.run, List.foldl_cons]
+    obtain ⟨x1, hx1, c1⟩ := step_bank_frame w op j x hx
+    obtain ⟨x2, hx2, k2, g2, i2, r2, f2, o2⟩ := ih (w.step op) j x1 hx1
+    obtain ⟨a1, a2, _, a4, _, _, _, _, a9, a10, a11⟩ := c1
+    refine ⟨x2, hx2, by rw [k2, a1], by rw [g2, a2], by rw [i2, a4], by rw [r2, a9], by rw [f2, a10], ?_⟩
+    rcases o2 with o2 | o2
+    · rcases a11 with a11 | a11
+      · left; rw [o2, a11]
+      · right; rw [o2, a11]
+    · right; exact o2
+
+end world_machine
 
 end Mfi.Props.C12
